@@ -1,4 +1,5 @@
 import Vanguard.Lemmas.Serve
+set_option linter.unusedSimpArgs false
 /-!
   "Exactly one outcome" (C03) as an invariant of the whole response path.
 
@@ -39,10 +40,29 @@ theorem SameWire.trans {a b c : Sink} (h1 : SameWire a b) (h2 : SameWire b c) : 
    h2.hdrEnd.trans h1.hdrEnd, h2.hdrEndSet.trans h1.hdrEndSet, h2.trailerEnd.trans h1.trailerEnd,
    h2.trailerEndSet.trans h1.trailerEndSet⟩
 
+/-- No body item is an end. -/
+def Sink.bodyRaw (k : Sink) : Prop := ∀ i ∈ k.items, i.isEnd = false
+
+/-- An end item, if there is one, is the last item of the body: no message data follows it. -/
+def Sink.endLast (k : Sink) : Prop := ∀ i ∈ k.items.dropLast, i.isEnd = false
+
+theorem Sink.bodyRaw_of_marks {k : Sink} (h : k.endMarks = 0) : k.bodyRaw := by
+  intro i hi
+  have h0 : k.items.countP Item.isEnd = 0 := by unfold Sink.endMarks at h; omega
+  have := (List.countP_eq_zero.mp h0) i hi
+  simpa using this
+
+theorem Sink.endLast_of_bodyRaw {k : Sink} (h : k.bodyRaw) : k.endLast :=
+  fun i hi => h i (List.dropLast_subset _ hi)
+
+theorem Sink.endLast_of_marks {k : Sink} (h : k.endMarks = 0) : k.endLast :=
+  Sink.endLast_of_bodyRaw (Sink.bodyRaw_of_marks h)
+
 structure Good (st : St) : Prop where
   ended : st.rw.endWritten = true → st.rw.err = true ∧ st.rw.headersFlushed = true
   opened : st.rw.endWritten = false → st.sink.endMarks = 0
   atMost : st.sink.endMarks ≤ 1
+  last : st.sink.endLast
 
 /-- `a` evolves to `b`. -/
 def Ev (a b : St) : Prop :=
@@ -66,19 +86,21 @@ theorem Ev.of_same {a b : St} (he : b.rw.endWritten = a.rw.endWritten) (herr : a
   intro ha
   have hm : b.sink.endMarks = a.sink.endMarks := by
     unfold Sink.endMarks; rw [hw.items, hw.hdrEndSet, hw.trailerEndSet]
-  refine ⟨⟨fun h => ?_, fun h => ?_, ?_⟩, fun h => ⟨hw, by rw [he]; exact h⟩⟩
+  refine ⟨⟨fun h => ?_, fun h => ?_, ?_, ?_⟩, fun h => ⟨hw, by rw [he]; exact h⟩⟩
   · rw [he] at h; rw [hf]; exact ⟨herr (ha.ended h).1, (ha.ended h).2⟩
   · rw [he] at h; rw [hm]; exact ha.opened h
   · rw [hm]; exact ha.atMost
+  · unfold Sink.endLast; rw [hw.items]; exact ha.last
 
 /-- A step on a live response that changes only headers / raw body items / flush bookkeeping. -/
 theorem Ev.of_open {a b : St} (hopen : a.rw.endWritten = false) (he : b.rw.endWritten = false)
     (hm : b.sink.endMarks = a.sink.endMarks) : Ev a b := by
   intro ha
-  refine ⟨⟨fun h => ?_, fun _ => ?_, ?_⟩, fun h => ?_⟩
+  refine ⟨⟨fun h => ?_, fun _ => ?_, ?_, ?_⟩, fun h => ?_⟩
   · rw [he] at h; cases h
   · rw [hm]; exact ha.opened hopen
   · rw [hm]; exact ha.atMost
+  · exact Sink.endLast_of_marks (by rw [hm]; exact ha.opened hopen)
   · rw [hopen] at h; cases h
 
 theorem Good.not_flushed_open {st : St} (h : Good st) (hf : st.rw.headersFlushed = false) : st.rw.endWritten = false := by
@@ -185,6 +207,55 @@ theorem encodeEnd_marks (c : ClientForm) (e : RespEnd) (inHdr : Bool) (k : Sink)
     | none => simp
     | some err => cases inHdr <;> simp
 
+theorem bodyRaw_write {k : Sink} (h : k.bodyRaw) (b : Bytes) : (k.write b).bodyRaw := by
+  unfold Sink.write Sink.bodyRaw
+  by_cases hs : k.status.isNone = true <;> by_cases hb : b.isEmpty = true <;> simp only [hs, hb, if_true, if_false]
+  all_goals first
+    | exact h
+    | (intro i hi
+       rcases List.mem_append.mp hi with hi | hi
+       · exact h i hi
+       · simp only [List.mem_singleton] at hi; rw [hi]; rfl)
+
+theorem bodyRaw_writeHeader {k : Sink} (h : k.bodyRaw) (c : Nat) : (k.writeHeader c).bodyRaw := by
+  unfold Sink.writeHeader Sink.bodyRaw
+  split <;> exact h
+
+theorem bodyRaw_of_items {k k' : Sink} (h : k.bodyRaw) (hi : k'.items = k.items) : k'.bodyRaw := by
+  unfold Sink.bodyRaw; rw [hi]; exact h
+
+theorem endLast_writeItem {k : Sink} (h : k.bodyRaw) (i : Item) : (k.writeItem i).endLast := by
+  unfold Sink.writeItem Sink.endLast
+  by_cases hs : k.status.isNone = true <;> simp only [hs, if_true, if_false, Bool.false_eq_true, List.dropLast_concat] <;> exact h
+
+/-- `encodeEnd` puts its end (if any) after everything written so far. -/
+theorem encodeEnd_endLast (c : ClientForm) (e : RespEnd) (inHdr : Bool) {k : Sink} (h : k.bodyRaw) :
+    (encodeEnd c e inHdr k).endLast := by
+  have hk := Sink.endLast_of_bodyRaw h
+  unfold encodeEnd
+  cases c <;> simp only
+  case grpc => cases inHdr <;> simp only [Bool.false_eq_true, if_false, if_true] <;> exact hk
+  case grpcWeb =>
+    cases inHdr <;> simp only [Bool.false_eq_true, if_false, if_true]
+    · exact endLast_writeItem h _
+    · exact hk
+  case connectStream => exact endLast_writeItem h _
+  case rest => exact hk
+  case connectPost =>
+    cases e.err with
+    | none => exact hk
+    | some err =>
+      cases inHdr <;> simp only [Bool.false_eq_true, if_false, if_true]
+      · exact hk
+      · exact endLast_writeItem h _
+  case connectGet =>
+    cases e.err with
+    | none => exact hk
+    | some err =>
+      cases inHdr <;> simp only [Bool.false_eq_true, if_false, if_true]
+      · exact hk
+      · exact endLast_writeItem h _
+
 theorem endMarks_bufWrite (k : Sink) (buf : Option Bytes) (c : Bool) :
     (match buf with
       | some b => if c then k else k.write b
@@ -208,8 +279,10 @@ theorem flushHeaders_ev (w : World) (st : St) : Ev st (flushHeaders w st).1 := b
     have hm1 : r.2.endMarks = if ((st.op.cform == ClientForm.grpc || st.op.cform == ClientForm.grpcWeb)
         && (st.rw.respMeta.getD {}).end.isSome) = true then 1 else 0 := by
       rw [← hr]; exact hmarks _
+    have hraw1 : r.2.bodyRaw := by
+      rw [← hr]; exact bodyRaw_of_items (Sink.bodyRaw_of_marks hm0) (addResponseHeaders_items _ _ _).1
     obtain ⟨status, sink1⟩ := r
-    simp only at hm1 ⊢
+    simp only at hm1 hraw1 ⊢
     cases status with
     | none => exact hg
     | some code =>
@@ -218,15 +291,26 @@ theorem flushHeaders_ev (w : World) (st : St) : Ev st (flushHeaders w st).1 := b
       | none =>
         rw [hend] at hm1
         simp only [Option.isSome_none, Bool.and_false, Bool.false_eq_true, if_false] at hm1
-        refine ⟨fun h => ?_, fun _ => ?_, ?_⟩
+        refine ⟨fun h => ?_, fun _ => ?_, ?_, ?_⟩
         · simp [hopen] at h
         · cases st.rw.buf <;> simp [endMarks_write, endMarks_writeHeader, hm1]
         · cases st.rw.buf <;> simp [endMarks_write, endMarks_writeHeader, hm1]
+        · refine Sink.endLast_of_marks ?_
+          cases st.rw.buf <;> simp [endMarks_write, endMarks_writeHeader, hm1]
       | some e =>
         rw [hend] at hm1
         simp only [Option.isSome_some, Bool.and_true] at hm1
         have henc := fun k => encodeEnd_marks st.op.cform e true k
-        refine ⟨fun _ => ⟨rfl, rfl⟩, fun h => ?_, ?_⟩
+        refine ⟨fun _ => ⟨rfl, rfl⟩, fun h => ?_, ?_, ?_⟩
+        rotate_left 2
+        · simp only [writeEnd]
+          refine encodeEnd_endLast _ _ _ ?_
+          cases st.rw.buf with
+          | none => exact bodyRaw_writeHeader hraw1 _
+          | some b =>
+            by_cases hc : (e.err).isSome = true
+            · simp only [Option.bind_some, hc, if_true]; exact bodyRaw_writeHeader hraw1 _
+            · simp only [Option.bind_some, hc, Bool.false_eq_true, if_false]; exact bodyRaw_write (bodyRaw_writeHeader hraw1 _) _
         · simp [writeEnd] at h
         · simp only [writeEnd]
           by_cases hg2 : (st.op.cform == ClientForm.grpc || st.op.cform == ClientForm.grpcWeb) = true
@@ -258,10 +342,11 @@ theorem writeEnd_finish_good (st : St) (e : RespEnd) (hg : Good st) (hopen : st.
     (hfl : st.rw.headersFlushed = true) :
     Good { (writeEnd st e false) with sink := (writeEnd st e false).sink.flush,
                                       rw := { (writeEnd st e false).rw with err := true } } := by
-  refine ⟨fun _ => ⟨rfl, hfl⟩, fun h => by simp [writeEnd] at h, ?_⟩
-  have := (encodeEnd_marks st.op.cform e false st.sink).1
-  rw [hg.opened hopen] at this
-  simpa [writeEnd, endMarks_flush] using this
+  refine ⟨fun _ => ⟨rfl, hfl⟩, fun h => by simp [writeEnd] at h, ?_, ?_⟩
+  · have := (encodeEnd_marks st.op.cform e false st.sink).1
+    rw [hg.opened hopen] at this
+    simpa [writeEnd, endMarks_flush] using this
+  · exact encodeEnd_endLast st.op.cform e false (Sink.bodyRaw_of_marks (hg.opened hopen))
 
 theorem flush_finish_good (w : World) (st : St) (r : RW) (he : r.endWritten = st.rw.endWritten)
     (herr : st.rw.err = true → r.err = true) (hf : r.headersFlushed = st.rw.headersFlushed) (hg : Good st) :
@@ -1208,6 +1293,21 @@ theorem opReportError_marks (o : Op) (k : Sink) (err : Err) (hk : k.endMarks = 0
       · refine Nat.le_trans (henc _).1 ?_
         rw [endMarks_writeHeader, hm']; simp [hg2]
 
+theorem opReportError_endLast (o : Op) (k : Sink) (err : Err) (hk : k.endMarks = 0) :
+    (opReportError o k err).1.endLast := by
+  unfold opReportError
+  simp only
+  split
+  · exact Sink.endLast_of_marks hk
+  · generalize hr : addResponseHeaders o.cform _ k = r
+    have hraw : r.2.bodyRaw := by
+      rw [← hr]; exact bodyRaw_of_items (Sink.bodyRaw_of_marks hk) (addResponseHeaders_items _ _ _).1
+    obtain ⟨status, k1⟩ := r
+    simp only at hraw ⊢
+    cases status with
+    | none => exact Sink.endLast_of_bodyRaw hraw
+    | some sc => exact encodeEnd_endLast _ _ _ (bodyRaw_writeHeader hraw _)
+
 theorem httpErrorResponse_marks (code : Nat) (allow : Option Bytes) : (httpErrorResponse {} code allow).endMarks = 0 := by
   unfold httpErrorResponse
   simp [Sink.endMarks, Sink.writeItem, Sink.writeHeader, Item.isEnd]
@@ -1240,22 +1340,24 @@ theorem runRaw_marks (script : List BOp) (src : Source) (sink : Sink) (h : sink.
 /-! ### `ServeHTTP` -/
 
 theorem good_init (o : Op) (src : Source) : Good { op := o, src := src, sink := {} } := by
-  refine ⟨?_, ?_, ?_⟩
+  refine ⟨?_, ?_, ?_, ?_⟩
   · intro h; cases h
   · intro _; rfl
   · simp [Sink.endMarks]
+  · intro i hi; simp at hi
 
 theorem Good.of_sameResp {a b : St} (h : SameResp a b) (hg : Good a) : Good b := by
   obtain ⟨h1, h2⟩ := h
-  refine ⟨?_, ?_, ?_⟩
+  refine ⟨?_, ?_, ?_, ?_⟩
   · intro he; rw [h1] at he ⊢; exact hg.ended he
   · intro he; rw [h1] at he; rw [h2]; exact hg.opened he
   · rw [h2]; exact hg.atMost
+  · rw [h2]; exact hg.last
 
 /-- What `transcodePre` may produce: a finished response with at most one end, or a state to go on with. -/
 def PreOk (x : Except (Sink × Bool) (St × Option (Bytes × Bool))) : Prop :=
   match x with
-  | .error y => y.1.endMarks ≤ 1
+  | .error y => y.1.endMarks ≤ 1 ∧ y.1.endLast
   | .ok y => Good y.1
 
 theorem transcodePre_spec (w : World) (o : Op) (pl : HandlePlan) (st0 : St) (hg : Good st0)
@@ -1267,9 +1369,9 @@ theorem transcodePre_spec (w : World) (o : Op) (pl : HandlePlan) (st0 : St) (hg 
       rw [hq.2]; exact hg.opened hopen
     simp only
     split
-    · exact opReportError_marks o _ _ hmarks
+    · exact ⟨opReportError_marks o _ _ hmarks, opReportError_endLast o _ _ hmarks⟩
     · split
-      · exact opReportError_marks o _ _ hmarks
+      · exact ⟨opReportError_marks o _ _ hmarks, opReportError_endLast o _ _ hmarks⟩
       · exact Good.of_sameResp hq hg
   · exact hg
 
@@ -1294,12 +1396,15 @@ theorem transcode_chain (w : World) (tb : Tables) (pl : HandlePlan) (script : Li
     (Ev.trans (runScript_ev w tb pl script total0 { st := transcodeStartState st skip, rd := rd }) (transcodeFinish_ev w tb _))
 
 theorem transcodeRun_good (w : World) (sc : Scenario) (o : Op) (pl : HandlePlan) (st : St)
-    (first : Option (Bytes × Bool)) (hg : Good st) : (transcodeRun w sc o pl st first).sink.endMarks ≤ 1 := by
+    (first : Option (Bytes × Bool)) (hg : Good st) :
+    (transcodeRun w sc o pl st first).sink.endMarks ≤ 1 ∧ (transcodeRun w sc o pl st first).sink.endLast := by
   unfold transcodeRun
   simp only
-  exact ((transcode_chain w sc.tables pl sc.script sc.src.left st _ _) hg).1.atMost
+  have key := fun skip rd => ((transcode_chain w sc.tables pl sc.script sc.src.left st skip rd) hg).1
+  exact ⟨(key _ _).atMost, (key _ _).last⟩
 
-theorem serveTranscode_marks (w : World) (sc : Scenario) (o : Op) : (serveTranscode w sc o).sink.endMarks ≤ 1 := by
+theorem serveTranscode_marks (w : World) (sc : Scenario) (o : Op) :
+    (serveTranscode w sc o).sink.endMarks ≤ 1 ∧ (serveTranscode w sc o).sink.endLast := by
   unfold serveTranscode
   have h := transcodePre_spec w o (o.plan w) { op := o, src := sc.src, sink := {} } (good_init o sc.src) rfl
   simp only
@@ -1308,21 +1413,25 @@ theorem serveTranscode_marks (w : World) (sc : Scenario) (o : Op) : (serveTransc
   | error x => exact h
   | ok x => exact transcodeRun_good w sc o _ x.1 x.2 h
 
-/-- **Every response of the transcoder carries at most one end**: whatever the request, the
-    configuration, the backend's script and the client's body are. -/
-theorem serve_marks (w : World) (sc : Scenario) : (serve w sc).sink.endMarks ≤ 1 := by
+theorem httpErrorResponse_endLast (code : Nat) (allow : Option Bytes) : (httpErrorResponse {} code allow).endLast :=
+  Sink.endLast_of_marks (httpErrorResponse_marks code allow)
+
+/-- **Every response of the transcoder carries at most one end, and nothing follows it in the
+    body**: whatever the request, the configuration, the backend's script and the client's body are. -/
+theorem serve_marks (w : World) (sc : Scenario) : (serve w sc).sink.endMarks ≤ 1 ∧ (serve w sc).sink.endLast := by
   unfold serve
   simp only
-  have hraw : ∀ d, (forwardObs sc d).sink.endMarks ≤ 1 := by
+  have hraw : ∀ d, (forwardObs sc d).sink.endMarks ≤ 1 ∧ (forwardObs sc d).sink.endLast := by
     intro d
     unfold forwardObs
     simp only
-    rw [runRaw_marks sc.script sc.src {} (by simp [Sink.endMarks])]; omega
+    have h0 := runRaw_marks sc.script sc.src {} (by simp [Sink.endMarks])
+    exact ⟨by rw [h0]; omega, Sink.endLast_of_marks h0⟩
   split
   · split
     · exact hraw _
-    · simp only; rw [httpErrorResponse_marks]; omega
-  · simp only; rw [httpErrorResponse_marks]; omega
+    · simp only; exact ⟨by rw [httpErrorResponse_marks]; omega, httpErrorResponse_endLast _ _⟩
+  · simp only; exact ⟨by rw [httpErrorResponse_marks]; omega, httpErrorResponse_endLast _ _⟩
   · split
     · split
       · exact hraw .svc
